@@ -174,7 +174,7 @@ def soap(decl: int, sep: int, t1: int, t2: int, tail_nl: bool, via_entity: bool)
 CONDITIONS = [
     Cond(name="form_post", fn="form_post",
          params=[("i", "int"), ("j", "int"), ("k", "int"), ("h", "int"), ("m", "int"), ("response", "bool"), ("via_entity", "bool")],
-         pre=["0 <= i < %d" % NA, "0 <= j < %d" % NA, "0 <= k < %d" % NA, "0 <= h <= %d" % len(HOSTILE), "0 <= m < %d" % len(MSGS)],
+         pre=["0 <= i < %d" % NA, "0 <= j < %d" % NA, "0 <= k < %d" % NA, "0 <= h <= %d" % len(HOSTILE), "0 <= m < 3"],
          partitions={"quick": [{"i": a, "h": 0, "k": 0, "m": a % 3, "response": a % 2 == 0, "via_entity": a % 3 == 0} for a in range(NA)] +
                               [{"i": 0, "j": 0, "k": 0, "h": x} for x in range(1, len(HOSTILE) + 1)],
                      "thorough": [{"i": a, "j": b, "k": (a + b) % NA, "h": 0, "via_entity": (a + b) % 2 == 0} for a in range(NA) for b in range(NA)] +
